@@ -24,10 +24,13 @@ QUICK = [
     ("a", "PromAgg_a.cfg", 125, "3 series x (1 free + 1 anchored) slots, values {-1,0,1,3}: aggregation operators"),
     ("b", "PromAgg_b.cfg", 125, "1 series x 3 slots, values {-1,0,1,3}: over-time functions, rule #1"),
     ("c", "PromAgg_c.cfg", 81, "2 series x 2 slots, values {-1,2}: everything incl. rules #2/#3"),
+    ("t", "PromAgg_t.cfg", 256, "2 series x 2 slots, values {-1,0,1}: topk/bottomk/sort ranking (plateaus, negative constants)"),
 ]
 THOROUGH = [
     ("a", "PromAgg_a.cfg", 125, QUICK[0][3], 1),
     ("b", "PromAgg_b.cfg", 125, QUICK[1][3], 1),
+    ("t", "PromAgg_t.cfg", 256, QUICK[3][3], 1),
+    ("T", "PromAgg_t_big.cfg", 729, "3 series x 2 slots, values {-1,0}: topk/bottomk/sort ranking, k = 1, 2 < group size", 1),
     ("A", "PromAgg_a_big.cfg", 4096, "3 series x 2 slots, values {-1,0,2}: aggregation operators", 4),
     ("B", "PromAgg_b_big.cfg", 625, "1 series x 4 slots, values {-1,0,1,3}, 2 buckets: over-time functions, rule #1", 1),
     ("C", "PromAgg_c_big.cfg", 729, "3 series x 2 slots, values {-1,2}: everything", 1),
@@ -65,7 +68,7 @@ def run(ctx):
         ctx.go_build_test("internal/promql")
         return drive(ctx, cases)
 
-    with ThreadPoolExecutor(max_workers=7) as pool:
+    with ThreadPoolExecutor(max_workers=9) as pool:
         build = pool.submit(ctx.go_build_test, "internal/promql")
         runs = list(pool.map(model, insts))
         bad = []
@@ -108,7 +111,7 @@ def drive(ctx, cases):
         for k in ("rule1_applied", "rule2_applied", "rule3_applied", "exec"):
             if cnt.get(k, 0) == 0:
                 raise Infra("driver is vacuous: %s = 0 (%s)" % (k, cnt))
-        if res.get("steps", 0) < 50 * len(cases):
+        if res.get("steps", 0) < 20 * len(cases):
             raise Infra("driver compared only %s values" % res.get("steps"))
     ctx.ev.add_impl("TLC-exported data sets evaluated with the real promql Engine.Exec (reduced and unreduced) over the "
                     "contract stub, results compared with the specified values", res["replayed"] if not nbad else 0,
